@@ -94,6 +94,11 @@ def check(case, ctx):
         except Exception:  # noqa  (C08)
             ctx.label("validate-raised")
             continue
+        try:
+            if (R == w) is True and (S == w) is not True and not s_ok:
+                r_ok = True         # (the == operator is one more way of asking; its answer counts as acceptance)
+        except Exception:  # noqa
+            pass
         if r_ok and not s_ok:
             raise Violation("substitution-widened",
                             f"S = {_r(S)}; R = S % {v!r} = {_r(R)} accepts {w!r} ({how}) which S rejects: "
